@@ -2,7 +2,7 @@ SPECIFICATION Spec
 CONSTANTS
   Callers = {P1, P2}
   CallKinds = {"call", "callWait", "replyCall"}
-  MaxCallsPer = 2
+  MaxCallsPer = 1
   CallReceivers = {}
   ReplyReceivers = {"RR"}
   MaxRecv = 1
